@@ -138,7 +138,7 @@ def extra_c17(tier, seed, workdir, sh, GH, GM):
 PROPS["C14"] = dict(
     module="Grenad.Props.C14",
     extra=extra_c14,
-    streams={"varint": (96, 2880), "edge": (64, 640)},
+    streams={"varint": (96, 2880), "edge": (64, 640), "huge": (1, 4)},
     rules={},
     exhaustive_in="thorough",
     assumptions=["u32 arithmetic of varint.rs is modelled on Nat with explicit % and / (checked against the real functions)"],
@@ -171,7 +171,7 @@ PROPS["C06"] = dict(module="Grenad.Props.C06", streams={"merge": (1280, 38400)},
 PROPS["C07"] = dict(module="Grenad.Props.C07", streams={"sorter": (960, 28800)}, rules={"ops": ["sfinish"], "calls": "thorough"})
 PROPS["C08"] = dict(module="Grenad.Props.C08", streams={"sorter": (960, 28800), "faultbig": (8, 64)}, rules={"ops": ["sins", "snew", "!sins", "!sfinish"], "sorter_bounds": True})
 PROPS["C09"] = dict(extra=extra_c09, module="Grenad.Props.C09", streams={"write": (640, 19200), "edge": (64, 640)}, rules={"ops": ["finish", "interop", "file"], "blocks": True, "finish_must_succeed": True})
-PROPS["C10"] = dict(module="Grenad.Props.C10", streams={"v1": (480, 14400)}, rules={"ops": ["file", "c", "range", "prefix"]})
+PROPS["C10"] = dict(module="Grenad.Props.C10", streams={"v1": (480, 14400)}, rules={"ops": ["file", "c", "range", "prefix", "!v1big"]})
 PROPS["C11"] = dict(module="Grenad.Props.C11", streams={"wio": (640, 19200), "rio": (480, 14400), "sorterio": (480, 14400)},
                     rules={"ops": ["ins", "finish", "sinkstate", "c", "range", "prefix", "file", "sfinish", "sins", "snew"]})
 PROPS["C12"] = dict(module="Grenad.Props.C12", streams={"fault": (64, 1920), "faultbig": (8, 64)},
@@ -192,10 +192,14 @@ SRCTIE = {
     "Grenad.SrcTie.IterRange": ("SrcIter", ["end_contains", "start_contains"]),
     "Grenad.SrcTie.IterPrefix": ("SrcIter", ["advance_key"]),
     "Grenad.SrcTie.Block": ("SrcBlock", ["Block", "Block.payload", "Block.entry_at", "varint_decode32", "varint_length_packed", "CompressionType"]),
+    "Grenad.SrcTie.C14Src": ("SrcBlock,SrcBlockWriter", ["Block", "Block.payload", "Block.entry_at", "varint_decode32", "varint_length_packed", "CompressionType",
+                                                        "varint_encode32", "BlockWriter", "BlockWriter.insert"]),
+    "Grenad.SrcTie.C13Src": ("SrcMeta", ["CompressionType", "CompressionType.from_u8", "MAGIC_V1", "MAGIC_V2", "METADATA_V1_SIZE",
+                                         "METADATA_V2_SIZE", "FileVersion", "Metadata", "Metadata.read_from", "Metadata.write_into"]),
     "Grenad.SrcTie.BlockWriter": ("SrcBlockWriter", ["BlockWriter", "BlockWriter.reset", "BlockWriter.current_size_estimate",
                                                      "BlockWriter.insert", "BlockWriter.finish", "varint_encode32"]),
 }
-for _p, _mods in {"C14": ["Varint", "Block"], "C13": ["Meta"], "C10": ["Meta"], "C09": ["Meta", "BlockWriter", "Varint"], "C04": ["IterRange"],
+for _p, _mods in {"C14": ["Varint", "Block", "C14Src"], "C13": ["Meta", "C13Src"], "C10": ["Meta"], "C09": ["Meta", "BlockWriter", "Varint", "C13Src"], "C04": ["IterRange"],
                   "C05": ["IterPrefix"], "C18": ["BlockWriter"], "C15": ["BlockWriter"], "C01": ["BlockWriter", "Varint", "Meta", "Block"]}.items():
     PROPS[_p]["srctie"] = ["Grenad.SrcTie." + m for m in _mods]
 
